@@ -40,6 +40,10 @@ func newTaint(t *tape.Tape, tier Tier, res *Result, alpha gen.Alphabet, allowUnk
 	}
 	g := gen.New(t, cfg)
 	ts := &taintSetup{spec: g.Tree()}
+	if prop == "C03" && t.Draw(400) == 7 {
+		// rarely: a long chain of layers that each carry unsafe text
+		ts.spec = g.DeepUnsafeChain(66 + t.Draw(20))
+	}
 	ts.sim = world.NewSim(t)
 	ts.sim.AddProcess(world.Full())
 	ts.sim.At(0)
